@@ -393,6 +393,10 @@ fn step<M: RawMutex + 'static, A: RingBuf<Item = Tagged> + 'static>(c: &mut Ctx<
     let op = &recycle(op, &c.recv, &[OP_MK_RECV], OP_POLL_RECV, OP_DROP_RECV);
     tls::clear_op_log();
     tls::alloc_reset();
+    // What a panic inside this op contradicts besides C01: on a closed channel every operation has
+    // a prescribed result (C11); on an open one the ring buffer's own `can_push` assertion is the
+    // debug-build face of exceeding the capacity (C09).
+    run.panic_also = if c.m.closed { Some(("C11", "")) } else { Some(("C09", "can_push")) };
     let owners_before = c.owners();
     let pending_before = c.pending_total();
     let unwoken_before = c.unwoken_pending();
